@@ -273,5 +273,121 @@ Qed.
 Theorem keyuid_reachable provider nodes ops : wf_hist (world0 provider nodes) ops → KeyUid (prun (world0 provider nodes) ops).
 Proof. intros H. apply keyuid_run; [apply winv_init|apply keyuid_world0|done]. Qed.
 
-Print Assumptions keyuid_step.
-Print Assumptions keyuid_reachable.
+(** * an alive pod keeps the IPs stored for it *)
+
+(** a pod of the API server that has not finished counts as running for the entries stored for its UID or for none *)
+Lemma running_alive w p stored :
+  WInv w → w_pods w !! pk p = Some p → finished p = false → stored = [] ∨ stored = pd_uid p →
+  pod_running w (pd_ns p) (pd_name p) stored = true.
+Proof.
+  intros Hw Hp Hfin Hst. destruct (wi_pods w Hw _ p Hp) as [_ Wp].
+  unfold pod_running.
+  destruct (wp_name p Wp) as [Nn _]. destruct (wp_ns p Wp) as [Ns _].
+  apply is_empty_false' in Nn. apply is_empty_false' in Ns. rewrite Nn, Ns. cbn [orb].
+  apply orb_true_iff. right. replace (w_pods w !! (pd_ns p, pd_name p)) with (Some p) by (symmetry; exact Hp).
+  unfold running_and_uid.
+  assert ((negb (Keys.is_empty stored) && negb (str_eqb stored (pd_uid p)))%bool = false) as ->.
+  { destruct Hst as [->| ->]; [done|]. rewrite str_eqb_refl. apply andb_false_r. }
+  by rewrite Hfin.
+Qed.
+
+(** a confined change for another key leaves the entry alone *)
+Lemma confined_other K w w' x e : confined K w w' → i_alloc (w_ipam w) !! x = Some e → e_key e ≠ K →
+  i_alloc (w_ipam w') !! x = Some e.
+Proof.
+  intros (_ & _ & _ & _ & Hc) He Hk. destruct (Hc x) as [E|(e0 & He0 & Hk0 & _)]; [by rewrite E|].
+  rewrite He in He0. by simplify_eq.
+Qed.
+
+(** ** one resync item *)
+Lemma resync_keeps_alive_same w ip o ocl fl x e p : WInv w → KeyUid w →
+  i_alloc (w_ipam w) !! x = Some e → e_uid e ≠ [] → e_uid e = pd_uid p →
+  w_pods w !! pk p = Some p → finished p = false → pod_key p = e_key e →
+  i_alloc (w_ipam (resync_section w ip o ocl fl).1) !! x = Some e.
+Proof.
+  intros HW HK He Hne Hu Hp Hfin Hk.
+  destruct (resync_section_confined w ip o ocl fl (wi_ipam w HW)) as [->|(e0 & He0 & Hrun & Hc)]; [done|].
+  destruct (decide (e_key e = e_key e0)) as [Ek|Ek]; [exfalso|by apply (confined_other _ _ _ _ _ Hc)].
+  destruct (wi_pods w HW _ p Hp) as [_ Wp].
+  rewrite <- Ek, <- Hk, (parse_pod_key p Wp) in Hrun.
+  destruct (keyobj_fields p) as (_ & Ens & Epod & _). rewrite Ens, Epod in Hrun.
+  rewrite (running_alive w p (e_uid e0) HW Hp Hfin) in Hrun; [done|].
+  destruct (HK ip e0 x e He0 He (eq_sym Ek)) as [?|[?|?]]; [by left|done|right; congruence].
+Qed.
+
+Theorem resync_keeps_alive w ip o ocl fl x e p : WInv w → KeyUid w →
+  i_alloc (w_ipam w) !! x = Some e → e_uid e ≠ [] → e_uid e = pd_uid p →
+  w_pods w !! pk p = Some p → finished p = false → pod_key p = e_key e →
+  ∃ e', i_alloc (w_ipam (resync_section w ip o ocl fl).1) !! x = Some e' ∧ e_key e' = e_key e.
+Proof. intros. exists e. split; [by eapply resync_keeps_alive_same|done]. Qed.
+
+(** ** one pod event *)
+
+(** the event of another incarnation: the F1 test fires on the entry itself, or the event's key is another one *)
+Lemma event_keeps_alive_same w q o oun fl x e p : WInv w →
+  i_alloc (w_ipam w) !! x = Some e → e_uid e ≠ [] → e_uid e = pd_uid p → pod_key p = e_key e →
+  wf_pod q → pd_uid q ≠ pd_uid p →
+  i_alloc (w_ipam (unbind_section true w q o oun fl).1) !! x = Some e.
+Proof.
+  intros HW He Hne Hu Hk Wq Hq.
+  destruct (unbind_section_confined w q o oun fl (wi_ipam w HW)) as [Hc Hsame].
+  destruct (decide (e_key e = pod_key q)) as [Ek|Ek]; [|by apply (confined_other _ _ _ _ _ Hc)].
+  rewrite Hsame; [done|]. unfold f1_test. apply existsb_exists. exists (x, e). split; [by apply by_key_spec|]. cbn [snd].
+  pose proof (wp_uid q Wq) as Huq. apply is_empty_false' in Hne, Huq. rewrite Hne, Huq. cbn [negb andb].
+  apply negb_true_iff. destruct (str_eqb_spec (e_uid e) (pd_uid q)); [congruence|done].
+Qed.
+
+Theorem event_keeps_alive w q o oun fl x e p : WInv w →
+  i_alloc (w_ipam w) !! x = Some e → e_uid e ≠ [] → e_uid e = pd_uid p → pod_key p = e_key e →
+  wf_pod q → pd_uid q ≠ pd_uid p →
+  ∃ e', i_alloc (w_ipam (unbind_section true w q o oun fl).1) !! x = Some e' ∧ e_key e' = e_key e.
+Proof. intros. exists e. split; [by eapply event_keeps_alive_same|done]. Qed.
+
+(** a queued event: the queue holds no event of an incarnation that is alive ([wi_queue]) *)
+Lemma event_step_keeps_alive_same w n o oun fl x e p : WInv w →
+  i_alloc (w_ipam w) !! x = Some e → e_uid e ≠ [] → e_uid e = pd_uid p →
+  w_pods w !! pk p = Some p → finished p = false → pod_key p = e_key e →
+  i_alloc (w_ipam (pstep w (PEvent n o oun fl)).1) !! x = Some e.
+Proof.
+  intros HW He Hne Hu Hp Hfin Hk. cbn [pstep]. destruct (w_queue w !! n) as [q|] eqn:En; [|done].
+  pose proof (wi_queue w HW) as HQ. rewrite Forall_forall in HQ.
+  destruct (HQ q) as [Wq Hq]; [by eapply elem_of_list_lookup_2|].
+  destruct (wi_pods w HW _ p Hp) as [_ Wp].
+  assert (i_alloc (w_ipam (unbind_section true w q o oun fl).1) !! x = Some e) as Hkeep.
+  { destruct (decide (e_key e = pod_key q)) as [Ek|Ek].
+    - apply (event_keeps_alive_same w q o oun fl x e p); try done. intros Huq.
+      assert (pk q = pk p) as Epk by (apply pod_key_inj; [done|done|congruence]).
+      rewrite Epk in Hq. rewrite (Hq p Hp (eq_sym Huq)) in Hfin. done.
+    - destruct (unbind_section_confined w q o oun fl (wi_ipam w HW)) as [Hc _]. by apply (confined_other _ _ _ _ _ Hc). }
+  by destruct (unbind_section true w q o oun fl) as [w' [| |]].
+Qed.
+
+Theorem event_step_keeps_alive w n o oun fl x e p : WInv w →
+  i_alloc (w_ipam w) !! x = Some e → e_uid e ≠ [] → e_uid e = pd_uid p →
+  w_pods w !! pk p = Some p → finished p = false → pod_key p = e_key e →
+  ∃ e', i_alloc (w_ipam (pstep w (PEvent n o oun fl)).1) !! x = Some e' ∧ e_key e' = e_key e.
+Proof. intros. exists e. split; [by eapply event_step_keeps_alive_same|done]. Qed.
+
+(** ** a pod event or a resync item, in any world satisfying the invariants / in any reachable world *)
+Definition release_step (op : pop) : Prop :=
+  match op with PEvent _ _ _ _ | PResync _ _ _ _ => True | _ => False end.
+
+Theorem alive_pod_keeps_ip_step w op x e p : WInv w → KeyUid w → release_step op →
+  i_alloc (w_ipam w) !! x = Some e → e_uid e ≠ [] → e_uid e = pd_uid p →
+  w_pods w !! pk p = Some p → finished p = false → pod_key p = e_key e →
+  ∃ e', i_alloc (w_ipam (pstep w op).1) !! x = Some e' ∧ e_key e' = e_key e.
+Proof.
+  intros HW HK Hop He Hne Hu Hp Hfin Hk. destruct op; try done.
+  - by eapply event_step_keeps_alive.
+  - rewrite pstep_resync_fst. by eapply resync_keeps_alive.
+Qed.
+
+Theorem alive_pod_keeps_ip_l provider nodes ops op x e p :
+  wf_hist (world0 provider nodes) ops → release_step op →
+  let w := prun (world0 provider nodes) ops in
+  i_alloc (w_ipam w) !! x = Some e → e_uid e ≠ [] → e_uid e = pd_uid p →
+  w_pods w !! pk p = Some p → finished p = false → pod_key p = e_key e →
+  ∃ e', i_alloc (w_ipam (pstep w op).1) !! x = Some e' ∧ e_key e' = e_key e.
+Proof.
+  intros Hwf Hop w. apply alive_pod_keeps_ip_step; [by apply winv_reachable|by apply keyuid_reachable|done].
+Qed.
